@@ -514,11 +514,12 @@ class Respondent(httping.Parsent):
         # Should connection be kept open until server closes
         self.checkPersisted()  # sets .persisted
 
-        if self.status in (httping.MULTIPLE_CHOICES,
-                           httping.MOVED_PERMANENTLY,
-                           httping.FOUND,
-                           httping.SEE_OTHER,
-                           httping.TEMPORARY_REDIRECT):
+        if (self.status in (httping.MULTIPLE_CHOICES,
+                            httping.MOVED_PERMANENTLY,
+                            httping.FOUND,
+                            httping.SEE_OTHER,
+                            httping.TEMPORARY_REDIRECT) and
+                self.headers.get("location")):  # nowhere to redirect to without location
             self.redirectant = True
 
         self.headed = True
